@@ -96,7 +96,8 @@ Definition model_rules_for (vp : variant) : list (string * list rule) := [
   ("Section", []);
   ("Source", []);
   (** valid::validate(File) and valid::validate(Dimension) exist in validate.cpp but are not called by
-      File::validate; they are part of the description only *)
+      File::validate; Validator.validate_file / validate_dimension are their tables (called directly by the
+      correspondence run) *)
   ("File", [
     Rule Could "File::isOpen" "notFalse" [] "" [
       Rule Must "File::createdAt" "notFalse" [] "date is not set!" [];
@@ -246,6 +247,17 @@ Section Envs.
     on "Feature::data" "notFalse" [] (option_map id_bool (f_data f))
    (on "Feature::linkType" "notSmaller" ["0"] (option_map (notSmaller 0) (f_link f))
     env_end).
+
+  Definition env_dimension (idx : Z) : env_t :=
+    on "Dimension::index" "notSmaller" ["1"] (Some (notSmaller 1 idx)) env_end.
+
+  Definition env_file (h : vheader) : env_t :=
+    on "File::isOpen" "notFalse" [] (Some (id_bool (h_open h)))
+   (on "File::createdAt" "notFalse" [] (option_map num_notFalse (h_created h))
+   (on "File::version" "notEmpty" [] (Some (count_notEmpty (h_version_n h)))
+   (on "File::format" "notEmpty" [] (Some (str_notEmpty (h_format h)))
+   (on "File::location" "notEmpty" [] (Some (str_notEmpty (h_location h)))
+    env_end)))).
 
   (** the base functions, by the name the source calls them *)
   Definition ent_base (fn : string) (e : vent) : result :=
